@@ -5,7 +5,11 @@
    implementation did (correspondence), and the property itself - termination with the
    value of the sequential fold - is evaluated on the implementation's result (oracle). *)
 open Model
+open Model.PmfM
+open Model.PmfOrdM
 type string = Stdlib.String.t
+let max = Stdlib.max
+let min = Stdlib.min
 open Conv
 
 let ord_mod = 1_000_000_007
